@@ -102,7 +102,8 @@ class BackendConcrete(Backend):
         return not arg
 
     @staticmethod
-    def _op_fpSqrt(rm, a):  # pylint:disable=unused-argument
+    def _op_fpSqrt(rm, a):
+        fp._only_nearest_even(rm)
         return a.fpSqrt()
 
     def convert(self, expr):
